@@ -510,3 +510,61 @@ Proof.
   - unfold cb_put_events; simpl. destruct (b_round x =? 0); simpl; rewrite IH; reflexivity.
   - apply IH.
 Qed.
+
+(* ---------------- the previous epoch's files are never removed before the new ones exist ---------------- *)
+
+Lemma prev_kept_inside_event : forall ev evs e lf s cp,
+  wf_hist e lf (ev :: evs) = true -> files_inv e lf false s ->
+  (cp_index cp < length (expand expected_shape ev))%nat ->
+  class_prev_destroyed (crash cp (expand expected_shape ev) s) = false.
+Proof.
+  intros ev evs e lf s cp W [L I] K. destruct s as [c cu fi g sh]; simpl in L, I.
+  destruct ev as [r|r|]; simpl in W, K.
+  - assert (cp_index cp = 0%nat) by lia.
+    assert (E : crash cp (expand expected_shape (EvStage r)) (mkS c cu fi g sh) = mkS c cu fi g sh).
+    { destruct cp as [k|k]; simpl in *; subst k; reflexivity. }
+    rewrite E. unfold class_prev_destroyed; simpl.
+    destruct I as [[E0 [F [G [S _]]]]|[E1 [[r0 [F Er0]] [[_ [G S]]|[X _]]]]]; [| |discriminate X]; subst fi g sh.
+    + reflexivity.
+    + simpl. rewrite !andb_false_r. reflexivity.
+  - repeat (apply andb_true_iff in W as [W ?]). apply Z.eqb_eq in H0.
+    unfold complete_rec in H1. repeat (apply andb_true_iff in H1 as [H1 ?]).
+    apply Z.eqb_eq in H1. apply Z.eqb_eq in H4. apply Z.eqb_eq in H3.
+    destruct I as [[E [F [G [S _]]]]|[E [[r0 [F Er0]] [[_ [G S]]|[X _]]]]]; [| |discriminate X]; subst fi g sh.
+    + (* first DKG: the record is epoch 1, there is no previous pair *)
+      destruct cp as [k|k]; destruct k as [|[|[|[|[|k]]]]]; simpl in K; try lia;
+        unfold class_prev_destroyed, is_left; simpl; rewrite ?H1; simpl; zdecide; reflexivity.
+    + destruct cp as [k|k]; destruct k as [|[|[|[|[|k]]]]]; simpl in K; try lia;
+        unfold class_prev_destroyed, is_left; simpl; rewrite ?H1, ?Er0; simpl;
+        rewrite ?andb_false_r; reflexivity.
+  - repeat (apply andb_true_iff in W as [W ?]). apply Z.leb_le in W. subst lf.
+    destruct I as [[E _]|[E [[r0 [F Er0]] [[_ [G S]]|[X _]]]]]; [lia | | discriminate X]; subst fi g sh.
+    unfold is_left in L; simpl in L.
+    destruct cp as [k|k]; destruct k as [|[|k]]; simpl in K; try lia;
+      unfold class_prev_destroyed, is_left; simpl; rewrite L; simpl; rewrite ?andb_false_r; reflexivity.
+Qed.
+
+Lemma prev_kept_inv : forall e lf gone s, files_inv e lf gone s -> class_prev_destroyed s = false.
+Proof.
+  intros e lf gone s [L [[E [F _]]|[E [[r [F Er]] [[_ [G S]]|[_ [Lf [G S]]]]]]]];
+    unfold class_prev_destroyed; rewrite F; try reflexivity.
+  - rewrite G, S. simpl. rewrite !andb_false_r. reflexivity.
+  - rewrite L, Lf. simpl. rewrite andb_false_r. reflexivity.
+Qed.
+
+Theorem prev_pair_never_destroyed : forall evs e lf s cp,
+  wf_hist e lf evs = true -> files_inv e lf false s ->
+  class_prev_destroyed (crash cp (expand_all expected_shape evs) s) = false.
+Proof.
+  induction evs as [|ev evs IH]; intros e lf s cp W I.
+  - simpl. rewrite crash_nil. apply (prev_kept_inv e lf false s I).
+  - simpl expand_all.
+    destruct (Nat.le_gt_cases (length (expand expected_shape ev)) (cp_index cp)) as [Hge|Hlt].
+    + rewrite crash_app_ge by assumption.
+      destruct (files_inv_step ev evs e lf s W I) as [e' [lf' [gone' [W' [I' G]]]]].
+      destruct gone'.
+      * rewrite (G eq_refl). simpl. rewrite crash_nil. apply (prev_kept_inv e' lf' true _ I').
+      * apply (IH e' lf'); assumption.
+    + rewrite crash_app_lt by assumption.
+      apply (prev_kept_inside_event ev evs e lf s cp W I Hlt).
+Qed.
